@@ -143,7 +143,11 @@ MonPatterns ==
     Pat2("forbids", Ev("y", "", PFalse), X12("", NoPred, "", NoPred)),
     Pat2("causes", X12("", PFalse, "", NoPred), Ev("y", "", PFalse)),
     Pat2("causes", X12("", NoPred, "", NoPred), Ev("y", "", PFalse)),
-    Pat1("no", X12("", PFalse, "", PTrue)), Pat1("some", X12("", PFalse, "", PFalse)) }
+    Pat1("no", X12("", PFalse, "", PTrue)), Pat1("some", X12("", PFalse, "", PFalse)),
+    \* three alternatives of which some (not all) carry an alias
+    Pat1("no", Dj(<<Ev("x1", "X", NoPred), Ev("x2", "Z", VEq(NumA("1"))), Ev("x3", "", NoPred)>>)),
+    Pat2("causes", Dj(<<Ev("x1", "X", NoPred), Ev("x3", "", NoPred), Ev("x2", "Z", NoPred)>>), Ev("y", "", NoPred)),
+    Pat2("forbids", Ev("y", "", NoPred), Dj(<<Ev("x3", "", VEq(NumA("1"))), Ev("x1", "X", NoPred), Ev("x2", "Z", NoPred)>>)) }
 \* an alternative of the split event on the SAME topic as the terminator, with another predicate
 MonSameTopic ==
   {Prop(s, WithTime(p, tm)) :
@@ -315,8 +319,16 @@ WAllPatterns ==
   \cup {Prop(Scope("after", Ev("t", "A", NoPred), NoPred), Pat2("causes", Ev("u", "B", NoPred), Ev("u", "", Pr(Bn("<", Fld(VarR("@B"), "n"), Fld(VarR("@A"), "n"))))))}
   \cup {Prop(Scope("after", Ev("t", "A", NoPred), NoPred), Pat2("requires", Ev("u", "B", NoPred), Ev("u", "", Pr(Bn("<", Fld(VarR("@B"), "n"), Fld(VarR("@A"), "n"))))))}
   \cup {Prop(Scope("after", Ev("t", "A", NoPred), NoPred), Pat1(t, Ev("u", "", Pr(Bn(">", Own("k"), Fld(VarR("@A"), "n")))))) : t \in {"some", "no"}}
+\* the alias is bound by an alternative that comes AFTER un-aliased alternatives of other message types (w: Other)
+WDisjAlias ==
+  {Prop(Scope("globally", NoPred, NoPred), Pat2(t, d, Ev("u", "", Pr(c)))) :
+      t \in {"causes", "forbids"},
+      d \in {Dj(<<Ev("w", "", NoPred), Ev("t", "A", NoPred)>>), Dj(<<Ev("w", "", Pr(Bn(">", Own("q"), NumA("0")))), Ev("u", "", NoPred), Ev("t", "A", Pr(Bn(">", Own("n"), NumA("0"))))>>),
+             Dj(<<Ev("w", "W", NoPred), Ev("t", "A", NoPred)>>)},
+      c \in {Bn(">", Own("n"), Fld(VarR("@A"), "n")), Bn("=", Own("s"), Fld(VarR("@A"), "s")), Bn(">", Idx(Fld(VarR("@A"), "fx"), NumA("2")), NumA("0"))}}
+  \cup {Prop(Scope("after", Dj(<<Ev("w", "", NoPred), Ev("t", "A", NoPred)>>), NoPred), Pat1("no", Ev("u", "", Pr(Bn(">", Own("n"), Fld(VarR("@A"), "n"))))))}
 WellTypedShapes ==
-  {Prop(Scope("after", Ev("t", "A", NoPred), NoPred), Pat1("no", Ev("u", "", Pr(c)))) : c \in WPreds} \cup WTwoEvents \cup WShadow \cup WAllPatterns
+  {Prop(Scope("after", Ev("t", "A", NoPred), NoPred), Pat1("no", Ev("u", "", Pr(c)))) : c \in WPreds} \cup WTwoEvents \cup WShadow \cup WAllPatterns \cup WDisjAlias
 
 ShapeMembers ==
   CASE ShapeFamily = "simple" -> SimpleShapes
